@@ -1023,7 +1023,7 @@ class Evaluator:
             # [f(c, w) for c in CONCRETE for w in g(c)]: the outer generator over a concrete short sequence is unrolled, the rest is the
             # comprehension of each item
             g0 = e.generators[0]
-            it0 = _iter_view(s.ev(g0.iter, {'__parent__': env}, mod, depth))
+            it0 = s._iterable(s.ev(g0.iter, {'__parent__': env}, mod, depth))
             if isinstance(it0, (list, tuple)) and len(it0) <= 24:
                 out, ok_ = [], True
                 inner = ast.copy_location(ast.ListComp(elt=e.elt, generators=e.generators[1:]), e)
@@ -1040,7 +1040,7 @@ class Evaluator:
         env2 = {'__parent__': env}
         gens = []
         for g in e.generators:
-            it = _iter_view(s.ev(g.iter, env2, mod, depth))
+            it = s._iterable(s.ev(g.iter, env2, mod, depth))
             if isinstance(it, dict) and all(not isinstance(k_, Opq) for k_ in it): it = [k_.v if isinstance(k_, _HK) else k_ for k_ in it]
             # concrete list/tuple of known length with a single generator: expand
             if len(e.generators) == 1 and isinstance(it, (list, tuple)) and len(it) <= (64 if kind == 'dict' else 24):
@@ -1166,6 +1166,11 @@ class Evaluator:
                             if isinstance(a2, tuple) and len(a2) == 3 and a2[0] == '[]' and a2[2] == tkey(Poly.atom('key')) and keyed_by(a2[1]): cache[ck_] = True
                 if cache[ck_]: return term_from_key(key_k)
         return None
+
+    def _iterable(s, v):
+        """what a loop / comprehension over v visits: a NamedTuple record iterates its fields, a defensive copy iterates the original"""
+        nt_ = s.namedtuple_items(v) if isinstance(v, Rec) else None
+        return nt_ if nt_ is not None else _iter_view(v)
 
     def unique_private_member(s, name):
         """(module, node) of the private member `name` when exactly one class of the package declares it (method, property or field), else None"""
@@ -1769,6 +1774,9 @@ class Evaluator:
         return Rec(cls.name, dict(kw, **{f'#{i}': a for i, a in enumerate(args)}), (m, cls))
 
     def builtin(s, name, args, kw, mod, depth):
+        if name in ('zip', 'enumerate', 'list', 'tuple', 'map', 'filter', 'sorted', 'reversed', 'sum', 'any', 'all', 'len', 'min', 'max', 'set', 'iter', 'next') \
+                and any(isinstance(x_, Rec) and s.namedtuple_items(x_) is not None for x_ in args):
+            args = [s.namedtuple_items(x_) if isinstance(x_, Rec) and s.namedtuple_items(x_) is not None else x_ for x_ in args]       # a NamedTuple is the tuple of its fields
         a = args[0] if args else None
         if name == 'globals' and not args and not kw: return Opq('globals', Ref('module', mod, None, mod.short))
         if name == 'frozenset': name = 'set'          # the same value as far as membership and equality go
@@ -2192,7 +2200,7 @@ class Evaluator:
             if isinstance(st, ast.For) and not st.orelse and any(isinstance(n, ast.Return) for n in ast.walk(st)) \
                     and not any(isinstance(n, (ast.Break, ast.Continue)) for n in ast.walk(st)):
                 # a loop over a concrete short sequence that may return from inside: written out item by item, followed by what comes after the loop
-                it_ = _iter_view(s.ev(st.iter, env, mod, depth))
+                it_ = s._iterable(s.ev(st.iter, env, mod, depth))
                 if isinstance(it_, (list, tuple)) and len(it_) <= 8:
                     unrolled = []
                     for item_ in it_:
@@ -2445,7 +2453,7 @@ class Evaluator:
                 if n.value.func.attr in ('append', 'update', 'extend', 'add', 'remove', 'pop', 'sort') and n.value.func.value.id not in assigned:
                     assigned.append(n.value.func.value.id)
         if isinstance(st, ast.For):
-            it = _iter_view(s.ev(st.iter, env, mod, depth))
+            it = s._iterable(s.ev(st.iter, env, mod, depth))
             tnames = [x.id for x in ast.walk(st.target) if isinstance(x, ast.Name)]
             # a loop over a concrete short sequence is executed element by element
             if isinstance(it, (list, tuple)) and len(it) <= 24 and not st.orelse and not any(isinstance(n, (ast.Break, ast.Continue, ast.Return)) for n in ast.walk(st)):
@@ -2637,12 +2645,12 @@ class Evaluator:
                     place = s._acc_target(stx.value.func.value, env, mod, depth)
                     kind = {'extend': 'list', 'update': 'set'}[stx.value.func.attr]
                     if place is None or s._empty_acc(place[2]) != kind or (place[0], _pk(place[1])) in records: ok[0] = False; return
-                    it2 = _iter_view(s.ev(stx.value.args[0], env2, mod, depth))
+                    it2 = s._iterable(s.ev(stx.value.args[0], env2, mod, depth))
                     if isinstance(it2, dict) or kind == 'set' and s._empty_acc(place[2]) == 'dict': ok[0] = False; return
                     gens.append((it2, []))
                     records[(place[0], _pk(place[1]))] = (place, kind, s.elem_of(it2, len(gens) - 1)); continue
                 if isinstance(stx, ast.For) and not stx.orelse:
-                    it2 = _iter_view(s.ev(stx.iter, env2, mod, depth))
+                    it2 = s._iterable(s.ev(stx.iter, env2, mod, depth))
                     env3 = {'__parent__': env2}
                     gens.append((it2, []))
                     s.bind_iter(stx.target, it2, env3, mod, depth, len(gens) - 1)
